@@ -12,10 +12,16 @@ F  DirectionGen: TLC generates behaviours (first packet c2s or s2c, the other si
    is sent through a real capture (capture.Manager + scripted capture source -> Capture.process ->
    ParsePacket -> addToFlowLog -> ClassifyPacketDirection) and the keys stored in the FlowLog with their
    packet counts are compared with the model after every packet.
+B  DirectionTrace: seeded runs of many interleaved conversations between a handful of hosts (shared flows,
+   mirrored keys meeting existing flows, fragments and truncated packets mixed in) through a real
+   capture; one event per packet with the flow the real FlowLog touched; TLC accepts the trace iff it is
+   a behaviour of Direction.tla.
 S  the relational law OrientationStable over all port pairs in Go with the real functions; offending
    pairs become conversations that TLC and the real capture then judge (F).
 """
 import json
+import os
+import subprocess
 import vlib
 
 MANIFEST = {
@@ -147,6 +153,56 @@ def main():
                      "negative control: a mirrored expectation was accepted by the replay")
         run.cov["negative_control_F"] = "expected key mirrored: rejected as '%s'" % nfails[0]["desc"]["diff"]
 
+        # ---- B: interleaved conversations through a real capture, validated by TLC
+        traces, pkts, nconv = (12, 3000, 80) if thorough else (4, 1500, 60)
+        tfile = os.path.join(sc, "dtrace.ndjson")
+        with open(tfile, "w") as fh:
+            p = subprocess.run([vh, "c22-drive", "-seed", str(run.seed), "-traces", str(traces), "-pkts", str(pkts),
+                                "-convs", str(nconv)], stdout=fh, stderr=subprocess.PIPE, text=True)
+        if p.returncode != 0:
+            raise vlib.MachineryError("c22-drive failed: " + p.stderr[-2000:])
+        lines = open(tfile).read().splitlines()
+        vlib.require(len(lines) == traces * (pkts + 1), "driver logged %d events" % len(lines))
+        t = vlib.tlc("packet", "DirectionTrace", "DirectionTrace.cfg", workers=1, files={"trace.ndjson": tfile},
+                     scratch=sc, timeout=2400, heap="8g")
+        if t.error:
+            raise vlib.MachineryError("DirectionTrace: %s\n%s" % (t.error, t.stdout[-2000:]))
+        run.add_tlc(t, "DirectionTrace")
+        run.count(len(lines))
+        run.cov["trace_events"] = len(lines)
+        run.cov["trace_max_flows"] = max(json.loads(x).get("nflows", 0) for x in lines[-50:])
+        run.cov["trace_ignored_packets"] = sum(1 for x in lines if '"changed":0' in x)
+        vlib.require(run.cov["trace_ignored_packets"] > 0, "driver produced no fragment / truncated packet")
+        run.cov["traces_validated_against_impl"] += traces
+        run.sample({"kind": "implementation trace event", "event": json.loads(lines[len(lines) // 3])})
+        if t.violation:
+            mm = t.mismatches[0] if t.mismatches else {}
+            ln = mm.get("line", 0)
+            replay = {"kind": "c22-trace", "seed": run.seed, "model": mm,
+                      "event": json.loads(lines[ln - 1]) if 0 < ln <= len(lines) else None,
+                      "cmd": "vh c22-drive -seed %d -traces %d -pkts %d -convs %d" % (run.seed, traces, pkts, nconv)}
+            if mm.get("judged"):
+                run.violation({"binding": "B", "class": _class(mm.get("tags", [])), "ver": mm["p"]["ver"],
+                               "kind": "proto%d" % mm["p"]["proto"], "diff": "stored-key", "at": mm.get("action")}, replay)
+            else:
+                run.drift.append({"binding": "B", "at": mm.get("action"), "line": ln, "model": mm})
+                recorded["trace-drift:%s" % mm.get("action")] = {"count": 1, "sample": json.dumps(mm)[:600]}
+        else:
+            # negative control: mirror the logged key of one first packet -> TLC must reject the trace
+            bad = list(lines)
+            idx = next(i for i in range(len(bad) // 2, len(bad))
+                       if '"changed":1' in bad[i] and json.loads(bad[i])["hit"]["n"] == 1
+                       and json.loads(bad[i])["hit"]["k"]["sip"] != json.loads(bad[i])["hit"]["k"]["dip"])
+            e = json.loads(bad[idx])
+            k = e["hit"]["k"]
+            k["sip"], k["dip"], k["sport"], k["dport"] = k["dip"], k["sip"], k["dport"], k["sport"]
+            bad[idx] = json.dumps(e)
+            nt = vlib.tlc("packet", "DirectionTrace", "DirectionTrace.cfg", workers=1,
+                          files={"trace.ndjson": "\n".join(bad) + "\n"}, scratch=sc, timeout=2400, heap="8g")
+            vlib.require(nt.violation is not None and nt.mismatches and nt.mismatches[0].get("line") == idx + 1,
+                         "negative control: a mirrored stored key in the trace was accepted")
+            run.cov["negative_control_B"] = "stored key of event %d mirrored: trace rejected at that event" % (idx + 1)
+
         # ---- S: symmetry law over port pairs with the real functions; offenders judged through F
         mode = "full" if thorough else "quick"
         rc, souts, _ = vlib.run_vh(vh, ["c22-sweep", "-mode", mode, "-workers", str(min(vlib.NCPU, 16))], timeout=3000)
@@ -193,6 +249,7 @@ def main():
         "first packets of different exchange kinds (SYN one way, mid-stream the other way) are not compared: the heuristics can legitimately conflict",
         "a multicast / broadcast peer never sends from that address (only the c2s direction exists)",
         "header bytes outside the abstract fields are random per seed",
+        "B: the driver's conversations have at most one common service port (client ports >= 1025, never 8080); the both-common class is covered by F",
     ]
     return run.finish()
 
